@@ -7,7 +7,7 @@ package libp2p
 //   connect-underlay        Service.Connect on garbage underlay bytes (what discovery hands over)
 //   e2e-inbound / -outbound a real Service (with and WITHOUT a metrics registry) against a raw libp2p
 //                           host that speaks the handshake protocol hostilely; afterwards an honest
-//                           peer must still be admitted. Handler goroutines are libp2p's and cannot
+//                           peer must still get through. Handler goroutines are libp2p's and cannot
 //                           be recover()-ed: these cases run in a child process (this test binary
 //                           re-executed on the input file); a crash is attributed to the case in
 //                           flight and the child restarted for the rest.
@@ -349,7 +349,7 @@ func c06AwaitFailure(svc *Service, outgoing bool, slow time.Duration) {
 		time.Sleep(400 * time.Millisecond * slow)
 		return
 	}
-	c06Until(10*time.Second*slow, func() bool { return c06Counter(c) >= 1 })
+	c06Until(5*time.Second*slow, func() bool { return c06Counter(c) >= 1 })
 	time.Sleep(20 * time.Millisecond) // the rest of the handler: blockPeer, return
 }
 
@@ -363,7 +363,7 @@ func c06Initiate(ctx context.Context, adv host.Host, advKey, foreign *ecdsa.Priv
 	if err != nil {
 		return fmt.Errorf("new stream: %w", err)
 	}
-	defer s.Reset()
+	// the stream is left open on return (the service may still be reading); closing the host ends it
 	junk := func(n int) []byte { b := make([]byte, n); r.Read(b); return b }
 	req := c06SignedReq(advKey, "bidder")
 	switch cls {
@@ -430,11 +430,21 @@ func c06Initiate(ctx context.Context, adv host.Host, advKey, foreign *ecdsa.Priv
 // c06Respond installs the responder side of the handshake on a raw host.
 func c06Respond(adv host.Host, advKey, foreign *ecdsa.PrivateKey, svc *Service, cls string, variant int, r *rand.Rand) {
 	adv.SetStreamHandler(handshake.ProtocolID(), func(s network.Stream) {
-		defer s.Reset()
 		junk := func(n int) []byte { b := make([]byte, n); r.Read(b); return b }
-		if cls == "E2CloseEarly" && variant%2 == 0 {
+		if cls == "E2CloseEarly" {
+			if variant%2 != 0 {
+				_ = c06ReadMsg(s, new(handshakepb.HandshakeReq))
+			}
+			_ = s.Reset()
 			return
 		}
+		// whatever was written is delivered: half-close, then wait for the service to end the stream
+		defer func() {
+			_ = s.CloseWrite()
+			_ = s.SetReadDeadline(time.Now().Add(5 * time.Second))
+			_, _ = io.Copy(io.Discard, s)
+			_ = s.Reset()
+		}()
 		theirs := new(handshakepb.HandshakeReq)
 		if c06ReadMsg(s, theirs) != nil {
 			return
@@ -448,8 +458,6 @@ func c06Respond(adv host.Host, advKey, foreign *ecdsa.PrivateKey, svc *Service, 
 			return
 		case "E2WrongType":
 			_ = c06WriteMsg(s, c06SignedReq(advKey, "bidder"))
-			return
-		case "E2CloseEarly":
 			return
 		case "E2BadEcho":
 			_ = c06WriteMsg(s, &handshakepb.HandshakeResp{ObservedAddress: junk(20), PeerType: theirs.PeerType})
@@ -889,17 +897,18 @@ func TestVerifC06(t *testing.T) {
 	}
 	// end to end: every class once without a registry in the quick tier, inbound; the outbound
 	// direction and the with-registry variant on a subset; variants multiply in the thorough tier
+	full := e.Tier == "thorough"
 	rounds := 1
-	if e.Tier != "quick" {
-		rounds = 1 + e.N/200
+	if full {
+		rounds = 1 + e.N/500
 	}
 	for k := 0; k < rounds; k++ {
 		for ci, cls := range c06Classes {
 			run("e2e-inbound-"+cls, c06In{Pkg: c06Pkg, Entry: "e2e-inbound", Cls: cls, Variant: k + ci, Seed: r.Int63()})
-			if e.Tier != "quick" || ci%3 == 1 {
+			if full || ci%3 == 1 {
 				run("e2e-outbound-"+cls, c06In{Pkg: c06Pkg, Entry: "e2e-outbound", Cls: cls, Variant: k, Seed: r.Int63()})
 			}
-			if e.Tier != "quick" || ci == 2 {
+			if full || ci == 2 {
 				run("e2e-inbound-"+cls, c06In{Pkg: c06Pkg, Entry: "e2e-inbound", Registry: true, Cls: cls, Variant: k + ci, Seed: r.Int63()})
 			}
 		}
